@@ -26,15 +26,30 @@ RULE = ("Rule-based state machine over one prysm.interferogram.Interferogram.  I
         "cropping again changes nothing, spike_clip removes exactly the samples beyond nsigma*std.  Non-trivial = the "
         "history contains an explicit coordinate read (or a filter() call, which reads r) before a shape- or unit-changing mutator (pad, shape-changing "
         "crop, latcal to another spacing, strip_latcal from a spacing != 1).  Distinct = distinct canonical JSON of "
-        "(init, ops).")
+        "(init, ops).  Hardening pass: the phase array is handed over in a drawn memory layout (C, Fortran, transposed view, "
+        "strided view) and dtype (float64, float32; tolerances follow the dtype of the data of the moment) and may be "
+        "re-assigned value-identically in another layout in mid-history (op relayout); axes may have length 1..3 (1xN, Nx1, "
+        "1x1) and a few larger awkward lengths; NaN patterns include a single valid sample and valid samples on one row / "
+        "column / diagonal (through the coordinate origin or not); dx may be 0 ('no lateral calibration', constructor default) "
+        "and may be given as float / int / numpy scalar / 0-d array / float32; piston / tilt / power removal, crop and "
+        "spike_clip are *always* performed, also on degenerate geometry (no / one / collinear valid samples): validity, "
+        "coordinate and statistics invariants are asserted there and only the 're-fit finds nothing' post-condition is "
+        "skipped when the harness' own design matrix is worse conditioned than 1e4; array arguments (masks, in every "
+        "layout; 0-d plate scales) must come back unchanged; an untouched twin Interferogram on the same grid (same shape, "
+        "same dx, re-created after every shape / unit change) must keep its coordinates bit for bit while the live object "
+        "is processed (no state shared between objects).")
 ASSUMPTIONS = ["numpy.linalg.lstsq / svd, numpy.hypot / arctan2 and copy.deepcopy are correct",
                "a deep copy of an Interferogram exposes the same coordinates as the original would at that moment",
                "data never contains +-inf (the generator never produces it), so 'invalid' == NaN == not finite",
-               "dx > 0 (dx == 0, 'no lateral calibration', gives an all-zero grid and is not generated)",
+               "dx >= 0; with dx == 0 ('no lateral calibration') every coordinate is 0 and 'spaced by dx' means exactly that; filter() is not "
+               "called while dx == 0 (a cut-off frequency relative to an undefined Nyquist frequency is not a valid input; the pinned code divides by dx)",
+               "integer-typed phase arrays are not generated: they cannot hold the NaN that marks an invalid sample and every mutator of the "
+               "unchanged class refuses them (mask / spike_clip / pad(nan) / remove_* raise a casting error)",
+               "re-assigning the public attribute `data` with an element-for-element equal array in another memory layout is a neutral user action",
                "whether crop() returns None or self is not part of the property and is not asserted"]
 
 MAXN = {'quick': 24, 'thorough': 40}
-GROW = 64          # pad is a no-op once an axis would exceed this (keeps cost bounded)
+GROW = 72          # pad is a no-op once an axis would exceed this (keeps cost bounded)
 COND_MAX = 1e4     # fits are only asserted when the design matrix on the valid samples is this well conditioned
 
 
@@ -83,6 +98,22 @@ def make_mask(spec, shape):
         for _ in range(spec['n']):
             keep[int(r.integers(0, ny)), int(r.integers(0, nx))] = False
         return keep
+    # degenerate but valid geometry: every kept sample on one line / a single kept sample.  `k` == 0 puts the line through the
+    # sample (ny//2, nx//2), which is the coordinate origin of a freshly gridded / recentred object
+    if k in ('row', 'col', 'diag', 'single'):
+        keep[:] = False
+        off = int(spec['k'])
+        iy, ix = (ny // 2 + off) % ny, (nx // 2 + off) % nx
+        if k == 'row':
+            keep[iy, :] = True
+        elif k == 'col':
+            keep[:, ix] = True
+        elif k == 'single':
+            keep[iy, (nx // 2 + int(spec.get('k2', off))) % nx] = True
+        else:
+            yy, xx = np.mgrid[:ny, :nx]
+            keep = (yy - ny // 2) == int(spec.get('slope', 1)) * (xx - nx // 2) + off
+        return keep
     raise ValueError(k)
 
 
@@ -96,19 +127,52 @@ def mask_specs():
         st.fixed_dictionaries({'kind': st.just('dropout'), 'seed': U.seeds, 'n': st.integers(1, 6)}),
         st.fixed_dictionaries({'kind': st.just('random'), 'seed': U.seeds, 'keep': st.sampled_from([0.95, 0.8, 0.5, 0.15])}),
         st.just({'kind': 'all'}),
+        line_specs(),
+    )
+
+
+def line_specs():
+    """all kept samples on one row / column / diagonal, or a single kept sample (offset 0 = through the grid's origin sample)"""
+    off = st.sampled_from([0, 0, 0, 1, -1, 2, -3, 5])
+    return st.one_of(
+        st.fixed_dictionaries({'kind': st.sampled_from(['row', 'col']), 'k': off}),
+        st.fixed_dictionaries({'kind': st.just('diag'), 'k': off, 'slope': st.sampled_from([1, -1])}),
+        st.fixed_dictionaries({'kind': st.just('single'), 'k': off, 'k2': off}),
     )
 
 
 # ---- strategies ----------------------------------------------------------------------------------
-DXS = [1.0, 0.5, 0.1, 2.0, 0.0125, 37.5, 0.3]
+DXS = [1.0, 0.5, 0.1, 2.0, 0.0125, 37.5, 0.3, 1e-6, 2.5e5]
+DXFORMS = ['float', 'float', 'np64', '0d', 'f32', 'int']      # how a spacing is handed over ('int' falls back to float when not integral)
+BIGAX = {'quick': [31, 48, 61], 'thorough': [31, 48, 61, 67]}
+
+
+def dx_value(v, form):
+    """(the object handed to prysm, the spacing the model expects): a Python float, an int (integral values only), a numpy
+    float64 scalar, a 0-d array, or a float32 scalar (then the spacing is the float32-rounded value)."""
+    v = float(v)
+    if form == 'int' and v == int(v):
+        return int(v), v
+    if form == 'np64':
+        return np.float64(v), v
+    if form == '0d':
+        return np.array(v), v
+    if form == 'f32' and v > 0 and 1e-30 < v < 1e30:
+        return np.float32(v), float(np.float32(v))
+    return v, v
 
 
 def strat_init(tier):
-    ax = st.one_of(st.integers(6, MAXN[tier]), st.sampled_from([6, 7, 8, 9, 12, 15, 16]))
+    ax = st.one_of(st.integers(6, MAXN[tier]), st.sampled_from([6, 7, 8, 9, 12, 15, 16]), st.integers(6, MAXN[tier]),
+                   st.sampled_from([1, 1, 2, 3, 4, 5]), st.sampled_from(BIGAX[tier]))
     shape = st.tuples(ax, ax, st.integers(0, 3)).map(lambda t: [t[0], t[0]] if t[2] == 0 else [t[0], t[1]])
     return st.fixed_dictionaries({
         'shape': shape,
-        'dx': st.one_of(st.sampled_from(DXS), U.nice_float(0.01, 20.0)),
+        'dx': st.one_of(st.sampled_from(DXS), U.nice_float(0.01, 20.0), st.sampled_from(DXS + [0.0])),
+        'dxform': st.sampled_from(DXFORMS),
+        'ctor': st.sampled_from(['positional', 'keyword', 'default-dx']),     # default-dx: Interferogram(z) when dx == 0
+        'layout': U.layouts,
+        'dtype': st.sampled_from(['f8', 'f8', 'f4']),
         'seed': U.seeds,
         'amp': st.sampled_from([1.0, 10.0, 1e-3, 1e3]),
         'offset': st.sampled_from([0.0, 0.0, 0.3, 5.0, -50.0]),
@@ -130,11 +194,13 @@ def strat_op(tier):
                                  'form': st.sampled_from(['samples', 'samples-int', 'shape', 'shape-int']),
                                  'inc': st.tuples(inc, inc).map(list),
                                  'value': st.sampled_from([None, None, 0.0, 1.5, -3.0])})
-    mask = st.fixed_dictionaries({'op': st.just('mask'), 'spec': mask_specs()})
-    fill = st.fixed_dictionaries({'op': st.just('fill'), 'value': st.sampled_from([0.0, 0.0, 1.0, -2.5])})
-    spike = st.fixed_dictionaries({'op': st.just('spike_clip'), 'nsigma': st.sampled_from([3.0, 3.0, 2.0, 1.0, 4.5])})
+    mask = st.fixed_dictionaries({'op': st.just('mask'), 'spec': mask_specs(), 'layout': U.layouts})
+    fill = st.fixed_dictionaries({'op': st.just('fill'), 'value': st.sampled_from([0.0, 0.0, 1.0, -2.5, None])})      # None: fill()
+    spike = st.fixed_dictionaries({'op': st.just('spike_clip'), 'nsigma': st.sampled_from([3.0, 3.0, 2.0, 1.0, 4.5, None])})   # None: spike_clip()
     latcal = st.fixed_dictionaries({'op': st.just('latcal'),
-                                    'ps': st.one_of(st.sampled_from([2.0, 0.5, 1.0, 0.25, 3.3]), U.nice_float(0.01, 20.0))})
+                                    'ps': st.one_of(st.sampled_from([2.0, 0.5, 1.0, 0.25, 3.3]), U.nice_float(0.01, 20.0)),
+                                    'form': st.sampled_from(DXFORMS)})
+    relayout = st.fixed_dictionaries({'op': st.just('relayout'), 'how': st.sampled_from(['F', 'T-view', 'strided', 'C'])})
     frac = st.sampled_from([0.1, 0.2, 0.35, 0.5, 0.65, 0.8])
     filt = st.fixed_dictionaries({'op': st.just('filter'), 'frac': st.tuples(frac, frac).map(list),
                                   'typ': st.sampled_from(['lp', 'hp', 'bp', 'br', 'lowpass', 'highpass', 'bandpass', 'bandreject'])})
@@ -144,11 +210,12 @@ def strat_op(tier):
     table = {'read': read, 'pad': pad, 'crop': simple('crop'), 'mask': mask, 'fill': fill, 'spike_clip': spike,
              'remove_piston': simple('remove_piston'), 'remove_tiptilt': simple('remove_tiptilt'),
              'remove_power': simple('remove_power'), 'recenter': simple('recenter'), 'latcal': latcal,
-             'strip_latcal': simple('strip_latcal'), 'filter': filt}
+             'strip_latcal': simple('strip_latcal'), 'filter': filt, 'relayout': relayout}
     # explicit weights (a drawn index into this list): reads are 1/3 of all draws; fill and filter frequent enough that
     # filter's precondition (no invalid sample) is met in a useful fraction of the histories
     weighted = (['read'] * 12 + ['pad'] * 3 + ['crop'] * 3 + ['mask'] * 3 + ['fill'] * 3 + ['spike_clip'] + ['remove_piston'] * 2 +
-                ['remove_tiptilt'] * 2 + ['remove_power'] * 2 + ['recenter'] * 2 + ['latcal'] * 2 + ['strip_latcal'] * 2 + ['filter'] * 3)
+                ['remove_tiptilt'] * 3 + ['remove_power'] * 3 + ['recenter'] * 2 + ['latcal'] * 2 + ['strip_latcal'] * 2 + ['filter'] * 3 +
+                ['relayout'] * 2)
     return st.sampled_from(weighted).flatmap(lambda n: table[n])
 
 
@@ -173,6 +240,18 @@ def _bbox(valid):
     return int(rows[0]), int(rows[-1]) + 1, int(cols[0]), int(cols[-1]) + 1
 
 
+def _geometry(valid):
+    """class of the set of valid samples: none | single | line (all on one row / column / diagonal) | area"""
+    iy, ix = np.nonzero(valid)
+    if iy.size == 0:
+        return 'none'
+    if iy.size == 1:
+        return 'single'
+    if np.ptp(iy) == 0 or np.ptp(ix) == 0 or np.ptp(iy - ix) == 0 or np.ptp(iy + ix) == 0:
+        return 'line'
+    return 'area'
+
+
 def _cond(A):
     s = np.linalg.svd(A, compute_uv=False)
     if s.size == 0 or s[-1] <= 0 or not np.all(np.isfinite(s)):
@@ -185,6 +264,7 @@ class IfgModel:
 
     def __init__(self, init, ctx):
         from prysm.interferogram import Interferogram
+        self.Interferogram = Interferogram
         self.ctx = ctx
         ny, nx = init['shape']
         data = _surface(init)
@@ -197,15 +277,31 @@ class IfgModel:
         if not valid.any():
             valid[ny // 2, nx // 2] = True
         data[~valid] = np.nan
-        self.dx = float(init['dx'])
+        # new keys are read with .get so that replays recorded before the hardening pass still run
+        layout, dtype = init.get('layout', 'C'), init.get('dtype', 'f8')
+        dxarg, self.dx = dx_value(init['dx'], init.get('dxform', 'float'))
+        ctor = init.get('ctor', 'positional')
         self.valid = valid
-        self.ifg = ctx.call(Interferogram, data.copy(), self.dx)
+        phase = U.relayout(data.astype({'f8': np.float64, 'f4': np.float32}[dtype]), layout)
+        if ctor == 'default-dx' and self.dx == 0:
+            self.ifg = ctx.call(Interferogram, phase)           # "if zero the data has no lateral calibration" is the default
+            ctor = 'default-dx(used)'
+        elif ctor == 'keyword':
+            self.ifg = ctx.call(Interferogram, phase=phase, dx=dxarg)
+        else:
+            self.ifg = ctx.call(Interferogram, phase, dxarg)
+        self._arg_unchanged('Interferogram', 'dx', dxarg, self.dx)
         self.reads = set()
         self.last = 'init'
         self.nsteps = 0
+        self.twin = None
+        self._retwin()
         ctx.label('init:square' if ny == nx else 'init:nonsquare',
                   'init:parity:%s%s' % ('eo'[ny % 2], 'eo'[nx % 2]),
-                  'init:nan:' + ('+'.join(sorted(set(kinds))) if not valid.all() else 'none'))
+                  'init:nan:' + ('+'.join(sorted(set(kinds))) if not valid.all() else 'none'),
+                  'init:layout:' + layout, 'init:dtype:' + dtype, 'init:dx:' + type(dxarg).__name__ + (':zero' if self.dx == 0 else ''),
+                  'init:ctor:' + ctor, 'init:axis-1' if min(ny, nx) == 1 else ('init:axis-2..5' if min(ny, nx) < 6 else 'init:axes>=6'),
+                  'init:valid:' + _geometry(valid))
 
     # -- helpers ---------------------------------------------------------------------------------
     @property
@@ -218,6 +314,25 @@ class IfgModel:
     def _observe(self):
         """deep copy of the live object: reading coordinates from it does not touch the live caches"""
         return copy.deepcopy(self.ifg)
+
+    def _rt(self):
+        """relative tolerance of value comparisons: 1e-9 while the data is float64 (>= 1e6 eps), 2e-4 (~1700 eps) while it is float32"""
+        return 1e-9 if self.ifg.data.dtype.itemsize >= 8 else 2e-4
+
+    def _arg_unchanged(self, fn, name, arg, want):
+        """an array-like argument must come back as it was handed over"""
+        if isinstance(arg, np.ndarray):
+            got = np.asarray(arg)
+            if got.shape != np.shape(want) or not np.array_equal(got, np.asarray(want)):
+                self.ctx.fail('%s:argument-modified' % fn, 'argument %s of %s was changed by the call (shape %s, %d entries differ)' % (
+                    name, fn, got.shape, int(np.sum(got != np.asarray(want))) if got.shape == np.shape(want) else -1))
+
+    def _retwin(self):
+        """a second, untouched Interferogram on the grid of the moment (same shape, same dx) with all four coordinates read;
+        nothing the live object goes through may change them (checked after every step)"""
+        shape = self.shape
+        self.twin = self.ctx.call(self.Interferogram, np.zeros(shape), self.dx)
+        self.twin_ref = {nm: np.array(self.ctx.call(getattr, self.twin, nm), copy=True) for nm in COORDS}
 
     def _mutator(self, name, effective):
         """bookkeeping of the non-triviality rule: explicit coordinate read earlier in the history, then a shape / unit change"""
@@ -247,17 +362,24 @@ class IfgModel:
 
     def op_crop(self, op):
         ctx = self.ctx
-        if not self.valid.any():
-            return self._noop('crop', 'no-valid-sample')
-        r0, r1, c0, c1 = _bbox(self.valid)
         before = self.ifg.data.copy()
-        self._mutator('crop', (r1 - r0, c1 - c0) != self.shape)
+        if not self.valid.any():
+            # nothing to bound: the documented behaviour of the unchanged code is to leave the object alone
+            self._noop('crop', 'no-valid-sample(still-called)')
+            ctx.call(self.ifg.crop)
+            U.check_shape(self.ifg.data, before.shape, 'crop:no-valid-sample', 'crop of data without a valid sample')
+            return
+        r0, r1, c0, c1 = _bbox(self.valid)
+        changes = (r1 - r0, c1 - c0) != self.shape
+        self._mutator('crop', changes)
         ctx.call(self.ifg.crop)
         want = before[r0:r1, c0:c1]
         got = self.ifg.data
         U.check_shape(got, want.shape, 'crop:bbox', 'crop of %s with valid bounding box rows %d:%d cols %d:%d' % (before.shape, r0, r1, c0, c1))
         U.check_equal(got, want, 'crop:keeps-valid', 'cropped data differs from the bounding box of the valid samples')
         self.valid = self.valid[r0:r1, c0:c1].copy()
+        if changes:
+            self._retwin()
         # idempotent: cropping a copy again changes nothing
         again = self._observe()
         ctx.call(again.crop)
@@ -293,113 +415,143 @@ class IfgModel:
         v = np.full(new, value is not None, dtype=bool)
         v[oy:oy + ny, ox:ox + nx] = self.valid
         self.valid = v
+        self._retwin()
 
     def op_mask(self, op):
-        m = make_mask(op['spec'], self.shape)
-        self.ctx.label('mask:' + op['spec']['kind'])
+        m = U.relayout(make_mask(op['spec'], self.shape), op.get('layout', 'C'))
+        keep = m.copy()
+        self.ctx.label('mask:' + op['spec']['kind'], 'mask:layout:' + op.get('layout', 'C'))
         self.ctx.call(self.ifg.mask, m)
-        self.valid = self.valid & m
+        self._arg_unchanged('mask', 'mask', m, keep)
+        self.valid = self.valid & keep
 
     def op_fill(self, op):
         self.ctx.label('fill:had-invalid' if not self.valid.all() else 'fill:nothing-to-fill')
-        self.ctx.call(self.ifg.fill, op['value'])
+        if op['value'] is None:
+            self.ctx.call(self.ifg.fill)
+        else:
+            self.ctx.call(self.ifg.fill, op['value'])
         self.valid = np.ones(self.shape, dtype=bool)
 
     def op_spike_clip(self, op):
         ctx = self.ctx
         v0 = self.valid
+        nsigma = 3.0 if op['nsigma'] is None else op['nsigma']      # documented default: nsigma=3
+        args = () if op['nsigma'] is None else (op['nsigma'],)
         if not v0.any():
-            return self._noop('spike_clip', 'no-valid-sample')
-        d0 = self.ifg.data.copy()
+            self._noop('spike_clip', 'no-valid-sample(still-called)')
+            ctx.call(self.ifg.spike_clip, *args)
+            return
+        d0 = self.ifg.data.astype(np.float64)
         a = np.abs(np.where(v0, d0, 0.0))
-        thr = op['nsigma'] * float(d0[v0].std())
-        eps = 1e-9 * max(float(a.max()), thr)
+        thr = nsigma * float(d0[v0].std())
+        eps = self._rt() * max(float(a.max()), thr)
         must_go = v0 & (a > thr + eps)
         must_stay = v0 & (a < thr - eps)
-        ctx.call(self.ifg.spike_clip, op['nsigma'])
+        ctx.call(self.ifg.spike_clip, *args)
         U.check_shape(self.ifg.data, v0.shape, 'spike_clip', 'data')
         v1 = np.isfinite(self.ifg.data)
         ctx.require(not (v1 & ~v0).any(), 'spike_clip:revived', '%d invalid samples became valid' % int((v1 & ~v0).sum()))
         ctx.require(not (v1 & must_go).any(), 'spike_clip:kept-outlier',
-                    '%d samples beyond %g*std=%g kept' % (int((v1 & must_go).sum()), op['nsigma'], thr))
+                    '%d samples beyond %g*std=%g kept' % (int((v1 & must_go).sum()), nsigma, thr))
         ctx.require(not (~v1 & must_stay).any(), 'spike_clip:removed-inlier',
-                    '%d samples within %g*std=%g removed' % (int((~v1 & must_stay).sum()), op['nsigma'], thr))
+                    '%d samples within %g*std=%g removed' % (int((~v1 & must_stay).sum()), nsigma, thr))
         ctx.label('spike_clip:removed-some' if must_go.any() else 'spike_clip:removed-none')
         self.valid = v0 & ~must_go & (must_stay | v1)
+
+    def _scale(self):
+        v = self.valid
+        return float(np.abs(self.ifg.data[v].astype(np.float64)).max()) if v.any() else 0.0
 
     def op_remove_piston(self, op):
         ctx = self.ctx
         v = self.valid
-        if not v.any():
-            return self._noop('remove_piston', 'no-valid-sample')
-        scale = float(np.abs(self.ifg.data[v]).max())
-        ctx.call(self.ifg.remove_piston)
+        scale = self._scale()
+        ctx.label('remove_piston:valid:' + _geometry(v))
+        ctx.call(self.ifg.remove_piston)          # always performed: validity / coordinates / statistics are asserted by the invariant
         U.check_shape(self.ifg.data, v.shape, 'remove_piston', 'data')
-        d = self.ifg.data[v]
+        if not v.any():
+            return
+        d = self.ifg.data[v].astype(np.float64)
         if np.all(np.isfinite(d)):   # otherwise the validity invariant reports it
             m = float(d.mean())
-            ctx.require(abs(m) <= 1e-9 * scale, 'remove_piston:mean', 'mean after remove_piston %.3g (data scale %.3g)' % (m, scale))
+            ctx.require(abs(m) <= self._rt() * scale, 'remove_piston:mean', 'mean after remove_piston %.3g (data scale %.3g)' % (m, scale))
 
     def op_remove_tiptilt(self, op):
         ctx = self.ctx
         v = self.valid
-        if v.sum() < 3:
-            return self._noop('remove_tiptilt', 'fewer-than-3-valid')
         obs = self._observe()
         x, y = np.asarray(obs.x), np.asarray(obs.y)
         if x.shape != v.shape or y.shape != v.shape:
             return self._noop('remove_tiptilt', 'coords-incoherent')   # already reported by the invariant of the previous step
-        A = np.stack([x[v], y[v]], axis=1)
-        if _cond(A) > COND_MAX:
-            return self._noop('remove_tiptilt', 'plane-undetermined')
-        scale = float(np.abs(self.ifg.data[v]).max())
+        A = np.stack([x[v], y[v]], axis=1).astype(np.float64)
+        # the operation is always performed (it must keep validity, coordinates and statistics coherent on any geometry);
+        # only the re-fit post-condition needs a plane that the valid samples determine
+        determined = v.sum() >= 3 and _cond(A) <= COND_MAX
+        ctx.label('remove_tiptilt:valid:' + _geometry(v), 'remove_tiptilt:' + ('determined' if determined else 'plane-undetermined'))
+        scale = self._scale()
         ctx.call(self.ifg.remove_tiptilt)
         U.check_shape(self.ifg.data, v.shape, 'remove_tiptilt', 'data')
-        d = self.ifg.data[v]
-        if np.all(np.isfinite(d)):
+        d = self.ifg.data[v].astype(np.float64)
+        if determined and np.all(np.isfinite(d)):
             c = np.linalg.lstsq(A, d, rcond=None)[0]
             resid = max(abs(float(c[0])) * float(np.abs(A[:, 0]).max()), abs(float(c[1])) * float(np.abs(A[:, 1]).max()))
-            ctx.require(resid <= 1e-8 * scale, 'remove_tiptilt:idempotent',
+            ctx.require(resid <= 10 * self._rt() * scale, 'remove_tiptilt:idempotent',
                         're-fit of a*x+b*y after remove_tiptilt finds a=%.3g b=%.3g (%.3g over the aperture, data scale %.3g)' % (c[0], c[1], resid, scale))
 
     def op_remove_power(self, op):
         ctx = self.ctx
         v = self.valid
-        if v.sum() < 3:
-            return self._noop('remove_power', 'fewer-than-3-valid')
         ny, nx = v.shape
         xx, yy = np.meshgrid(np.linspace(-1, 1, nx), np.linspace(-1, 1, ny))
         rho2 = (xx * xx + yy * yy)[v]
         A = np.stack([rho2, np.ones_like(rho2)], axis=1)
-        if _cond(A) > COND_MAX:
-            return self._noop('remove_power', 'sphere-undetermined')
-        scale = float(np.abs(self.ifg.data[v]).max())
+        determined = v.sum() >= 3 and _cond(A) <= COND_MAX
+        ctx.label('remove_power:valid:' + _geometry(v), 'remove_power:' + ('determined' if determined else 'sphere-undetermined'),
+                  'remove_power:layout:' + ('C' if self.ifg.data.flags.c_contiguous else ('F' if self.ifg.data.flags.f_contiguous else 'strided')) +
+                  (':nonsquare' if ny != nx else ':square'))
+        scale = self._scale()
         ctx.call(self.ifg.remove_power)
         U.check_shape(self.ifg.data, v.shape, 'remove_power', 'data')
-        d = self.ifg.data[v]
-        if np.all(np.isfinite(d)):
+        d = self.ifg.data[v].astype(np.float64)
+        if determined and np.all(np.isfinite(d)):
             c = np.linalg.lstsq(A, d, rcond=None)[0]
             resid = abs(float(c[0])) * float(rho2.max())
-            ctx.require(resid <= 1e-8 * scale, 'remove_power:idempotent',
+            ctx.require(resid <= 10 * self._rt() * scale, 'remove_power:idempotent',
                         're-fit of c*rho^2 + const after remove_power finds c=%.3g (%.3g at the edge, data scale %.3g)' % (c[0], resid, scale))
 
     def op_recenter(self, op):
         self.ctx.call(self.ifg.recenter)
 
     def op_latcal(self, op):
-        ps = float(op['ps'])
+        arg, ps = dx_value(op['ps'], op.get('form', 'float'))
+        self.ctx.label('latcal:' + type(arg).__name__)
         self._mutator('latcal', ps != self.dx)
-        self.ctx.call(self.ifg.latcal, ps)
+        self.ctx.call(self.ifg.latcal, arg)
+        self._arg_unchanged('latcal', 'plate_scale', arg, ps)
+        changed = ps != self.dx
         self.dx = ps
+        if changed:
+            self._retwin()
 
     def op_strip_latcal(self, op):
-        self._mutator('strip_latcal', self.dx != 1.0)
+        changed = self.dx != 1.0
+        self._mutator('strip_latcal', changed)
         self.ctx.call(self.ifg.strip_latcal)
         self.dx = 1.0
+        if changed:
+            self._retwin()
+
+    def op_relayout(self, op):
+        """the user re-assigns the public attribute `data` with an element-for-element equal array in another memory layout"""
+        self.ctx.label('relayout:' + op['how'])
+        self.ifg.data = U.relayout(self.ifg.data, op['how'])
 
     def op_filter(self, op):
         if not self.valid.all():
             return self._noop('filter', 'has-invalid-samples')
+        if self.dx == 0:
+            return self._noop('filter', 'dx-zero')
         nyq = 1.0 / (2.0 * self.dx)
         typ = op['typ']
         f = sorted(op['frac'])
@@ -430,7 +582,7 @@ class IfgModel:
         ctx.require(not np.isinf(d).any(), 'validity:inf:' + last, 'data contains inf after %s' % last)
         # coordinates
         dx = i.dx
-        ctx.require(np.ndim(dx) == 0 and abs(float(dx) - self.dx) <= 1e-12 * self.dx, 'dx:' + last,
+        ctx.require(np.ndim(dx) == 0 and np.size(dx) == 1 and abs(float(dx) - self.dx) <= 1e-12 * self.dx, 'dx:' + last,
                     'reported dx %r after %s, model dx %r' % (dx, last, self.dx))
         dx = float(dx)
         c = {}
@@ -469,10 +621,19 @@ class IfgModel:
         dt = np.where(rr > 1e-9 * rs, dt, 0.0)      # angle of the origin sample is a convention
         ctx.require(float(dt.max()) <= 1e-9, 'polar:t:' + last, 't differs from arctan2(y,x) by %.4g rad after %s' % (float(dt.max()), last))
         # statistics
+        # no state shared between objects: the untouched twin on the same grid still has the coordinates it had
+        for nm in COORDS:
+            a = np.asarray(ctx.call(getattr, self.twin, nm))
+            if a.shape != self.twin_ref[nm].shape or not np.array_equal(a, self.twin_ref[nm]):
+                ctx.fail('aliased-state:twin:%s:%s' % (nm, last), '%s of an untouched Interferogram (shape %s, dx %r) changed while %s ran on another object of that shape and dx'
+                         % (nm, self.twin_ref[nm].shape, self.dx, last))
         nv = int(self.valid.sum())
+        rt = 1e-9 if d.dtype.itemsize >= 8 else 2e-4
+        floor = 1e3 * float(np.sqrt(np.finfo(d.dtype).tiny)) if d.dtype.kind == 'f' else 0.0    # below this, squares underflow in the data's own precision
+        ctx.label('state:dtype:' + str(d.dtype), 'state:valid:' + _geometry(self.valid))
         ctx.label('state:all-valid' if nv == d.size else ('state:no-valid' if nv == 0 else 'state:some-invalid'))
         if nv >= 1:
-            dd = d[self.valid]
+            dd = d[self.valid].astype(np.float64)
             m = float(dd.mean())
             ref = {'pv': float(dd.max() - dd.min()), 'rms': float(np.sqrt(np.mean(dd * dd))),
                    'Sa': float(np.mean(np.abs(dd - m))), 'std': float(np.sqrt(np.mean((dd - m) ** 2)))}
@@ -482,11 +643,11 @@ class IfgModel:
                 g = ctx.call(getattr, i, nm)
                 ctx.require(np.ndim(g) == 0 and np.isfinite(g), 'stat:%s:nonfinite' % nm, '%s = %r after %s with %d valid samples' % (nm, g, last, nv))
                 got[nm] = float(g)
-                ctx.require(abs(got[nm] - ref[nm]) <= 1e-9 * scale, 'stat:' + nm,
+                ctx.require(abs(got[nm] - ref[nm]) <= rt * scale + floor, 'stat:' + nm,
                             '%s reports %.12g, the valid samples give %.12g (after %s, %d of %d valid)' % (nm, got[nm], ref[nm], last, nv, d.size))
             lhs, rhs = got['rms'] ** 2, got['std'] ** 2 + m * m
-            ctx.require(abs(lhs - rhs) <= 1e-9 * max(lhs, rhs), 'stat:rms2=std2+mean2', 'rms^2=%.12g, std^2+mean^2=%.12g after %s' % (lhs, rhs, last))
-            slack = 1e-9 * scale
+            ctx.require(abs(lhs - rhs) <= rt * max(lhs, rhs) + floor * floor, 'stat:rms2=std2+mean2', 'rms^2=%.12g, std^2+mean^2=%.12g after %s' % (lhs, rhs, last))
+            slack = rt * scale + floor
             ctx.require(got['Sa'] <= got['std'] + slack and got['std'] <= got['pv'] + slack, 'stat:order',
                         'Sa=%.6g std=%.6g PV=%.6g violates Sa<=std<=PV after %s' % (got['Sa'], got['std'], got['pv'], last))
 
